@@ -31,4 +31,6 @@ open(p,"w").write(s)
 PY
   echo "$GETH_SRC" > "$STAMP"
 fi
+# 3. yield-point instrumenter
+(cd "$V/instr" && $GO build -o "$B/instr" .)
 echo "setup: ok"
